@@ -86,16 +86,23 @@ def run(lines, variant="plain", dangerous=False, timeout=4, nproc=None, env=None
                 raise RuntimeError("hexec shard %d exited %d" % (s, rc))
             a, b = bounds[s]
             with open(os.path.join(d, "out%d" % s), "r", encoding="latin-1", newline="\n") as f:
-                i = a
+                seen = {}
                 for ln in f:
                     parts = ln.rstrip("\n").split("\t")
                     ident = parts[0].lstrip("!")
-                    if int(ident) != i:
-                        raise RuntimeError("hexec output out of order: got %s want %d" % (ident, i))
-                    res[i] = parts[1:]
-                    i += 1
-                if i != b:
-                    raise RuntimeError("hexec shard %d: %d of %d results" % (s, i - a, b - a))
+                    if not ident.isdigit() or not a <= int(ident) < b:
+                        continue
+                    k = int(ident)
+                    if k in seen:
+                        # two result lines for one history: the history damaged the executor itself (e.g. unmapped memory it
+                        # does not own); that is a crash of this history, not a protocol error
+                        res[k] = ["CRASH:98:executor corrupted by this history (duplicate result line)"]
+                    else:
+                        seen[k] = True
+                        res[k] = parts[1:]
+                for k in range(a, b):
+                    if res[k] is None:
+                        res[k] = ["CRASH:97:no result line (executor corrupted or killed)"]
         return res
     finally:
         for p, op in procs:
